@@ -85,6 +85,15 @@ def panic_and_progress(rep, R_panic, R_loop):
               "the loop-progress rule does not separate `loop { if n == 7 { break } }` (no witness) from `while let Some(_) = it.next()` (witness): %s" % res, instance={"fixture": "spin / counted", "witnessed": res})
 
 
+def counter_arith(rep, R):
+    import panic
+    p = prog()
+    sites = panic.unsaturated_counter_arith(p, "pasfmt_canary::Counters", ("blanks", "breaks"), crates=("pasfmt_canary",))
+    where = sorted({b.npath.split("::")[-1] for b, _, _, _ in sites})
+    rep.check(where == ["gap_plain"], R, "fixture:counter-plus-counter", "the counter-arithmetic rule misses `c.blanks + c.breaks` of the fixture or flags its saturating twin: %s" % where,
+              instance={"fixture": "gap_plain / gap_saturating", "flagged": where})
+
+
 def short_circuit(rep, R):
     import layout
     p = prog()
@@ -96,7 +105,7 @@ def short_circuit(rep, R):
 
 CANARIES = {
     "C01": lambda rep: trait_impls(rep, "C01.c"),
-    "C04": lambda rep: panic_and_progress(rep, "C04.b", "C04.a"),
+    "C04": lambda rep: (panic_and_progress(rep, "C04.b", "C04.a"), counter_arith(rep, "C04.g")),
     "C09": lambda rep: short_circuit(rep, "C09.j"),
     "C15": lambda rep: statics_and_types(rep, "C15.c"),
     "C16": lambda rep: (file_effects(rep, "C16.a"), output_discipline(rep, "C16.i")),
